@@ -187,13 +187,14 @@ class HoistSetupCallsIntoConditionals(RewritePattern):
         # Step 0: Check that the setup can be expressed inside of the scf.if:
         # the setup must be in the same block as the scf.if (otherwise it would be executed on paths
         # it was not executed on before), and all values it sets must already be available before the scf.if
+        # (a result of the scf.if itself is not)
         if_op = op.in_state.owner
         block = if_op.parent_block()
         if block is None or op.parent_block() is not block:
             return
         for val in op.values:
             if isinstance(val, OpResult) and val.op.parent_block() is block:
-                if block.get_operation_index(val.op) > block.get_operation_index(if_op):
+                if block.get_operation_index(val.op) >= block.get_operation_index(if_op):
                     return
 
         # Step 1: Check that it's legal to move:
